@@ -286,6 +286,94 @@ fn hash_strategy(tier: Tier) -> BoxedStrategy<HashCase> {
 }
 
 // ---------------------------------------------------------------------------
+// hashing standard input ("When no file is given, or when - is given, read standard input")
+// ---------------------------------------------------------------------------
+#[derive(Clone, Debug, Serialize, Deserialize)]
+pub struct StdinCase {
+    pub len: u32,
+    pub content: Content,
+    /// pass `-` explicitly (otherwise no file argument at all)
+    pub dash: bool,
+    pub derive: Option<CtxSpec>,
+    /// --keyed with `-`: stdin is the key, so `-` cannot be an input and must be refused
+    pub keyed: bool,
+    pub length: Option<u16>,
+    pub seek: Option<u64>,
+    pub output: u8,
+    pub no_mmap: bool,
+}
+
+pub fn check_stdin(c: &StdinCase) -> Result<(), String> {
+    let dir = TempDir::new()?;
+    let data = c.content.expand(c.len as usize);
+    let mut args: Vec<OsString> = Vec::new();
+    if let Some(ctx) = &c.derive {
+        args.push(format!("--derive-key={}", ctx.string()).into());
+    }
+    let seek = c.seek.unwrap_or(0);
+    let length = core::cmp::min(c.length.map(|l| l as u64).unwrap_or(32), u64::MAX - seek);
+    if c.length.is_some() || seek > u64::MAX - 32 {
+        args.push("--length".into());
+        args.push(length.to_string().into());
+    }
+    if c.seek.is_some() {
+        args.push("--seek".into());
+        args.push(seek.to_string().into());
+    }
+    if c.no_mmap {
+        args.push("--no-mmap".into());
+    }
+    match c.output % 4 {
+        1 => args.push("--no-names".into()),
+        2 => args.push("--tag".into()),
+        3 => args.push("--raw".into()),
+        _ => {}
+    }
+    if c.keyed && c.derive.is_none() {
+        args.push("--keyed".into());
+        args.push("-".into());
+        let out = run(&dir.0, &args, Some(&[7u8; 32]))?;
+        ensure!(out.code.is_some() && out.code != Some(0), "b3sum --keyed - exited with {:?} (stdin is the key, so `-` cannot be hashed)", out.code);
+        ensure!(out.stdout.is_empty(), "b3sum --keyed - printed {:?}", String::from_utf8_lossy(&out.stdout));
+        return Ok(());
+    }
+    if c.dash {
+        args.push("-".into());
+    }
+    let out = run(&dir.0, &args, Some(&data))?;
+    let kf = match &c.derive {
+        Some(ctx) => b3spec::KeyFlags::derive_key(ctx.string().as_bytes()),
+        None => b3spec::KeyFlags::hash(),
+    };
+    let digest = b3spec::root(&kf, &data).xof(seek, length as usize);
+    let want: Vec<u8> = match c.output % 4 {
+        3 => digest.clone(),
+        1 => format!("{}\n", hex(&digest)).into_bytes(),
+        2 => format!("BLAKE3 (-) = {}\n", hex(&digest)).into_bytes(),
+        _ => format!("{}  -\n", hex(&digest)).into_bytes(),
+    };
+    ensure!(out.code == Some(0), "b3sum {:?} < stdin exited with {:?}; stderr: {}", args, out.code, String::from_utf8_lossy(&out.stderr));
+    ensure!(out.stdout == want, "b3sum {:?} on {} bytes of stdin printed {:?}, expected {:?}", args, data.len(), String::from_utf8_lossy(&out.stdout), String::from_utf8_lossy(&want));
+    Ok(())
+}
+
+fn stdin_strategy(_tier: Tier) -> BoxedStrategy<StdinCase> {
+    (
+        prop_oneof![2 => Just(0u32), 3 => 1u32..=3000, 2 => 65_530u32..=65_540, 2 => 0u32..=200_000],
+        gen::content(),
+        any::<bool>(),
+        prop::option::weighted(0.3, gen::ctx_spec(100, false)),
+        prop::bool::weighted(0.1),
+        prop::option::weighted(0.4, 0u16..=300),
+        prop::option::weighted(0.3, gen::position_lattice()),
+        0u8..4,
+        any::<bool>(),
+    )
+        .prop_map(|(len, content, dash, derive, keyed, length, seek, output, no_mmap)| StdinCase { len, content, dash, derive, keyed, length, seek, output, no_mmap })
+        .boxed()
+}
+
+// ---------------------------------------------------------------------------
 // --check
 // ---------------------------------------------------------------------------
 #[derive(Clone, Debug, Serialize, Deserialize, PartialEq, Eq)]
@@ -540,6 +628,16 @@ pub fn subs() -> Vec<Box<dyn DynSub>> {
             strategy: hash_strategy,
             classify: classify_hash,
             check: check_hash,
+            known: None,
+            crumb: false,
+        }),
+        Box::new(PropSub::<StdinCase> {
+            name: "stdin-cli",
+            rule: "proptest: data on standard input with no file argument or an explicit `-`, x --derive-key / --length / --seek / --no-mmap / output form; oracle: the documented line with name `-` around spec S[seek..seek+length]; `--keyed -` (stdin is the key) must be refused with a non-zero status",
+            cases: (600, 10_000),
+            strategy: stdin_strategy,
+            classify: |c| Classes::new(c.len > 65_536 || c.seek.is_some()).tag(c.dash, "explicit-dash").tag(!c.dash, "no-file-argument").tag(c.keyed && c.derive.is_none(), "--keyed-with-dash(refused)").tag(c.len == 0, "empty-stdin").tag(c.len > 65_536, "stdin>64KiB"),
+            check: check_stdin,
             known: None,
             crumb: false,
         }),
